@@ -6,7 +6,7 @@ From StgV Require Import Model.StackSpec Model.IdentSpec.
 From StgV Require Import Proofs.WfBasics Proofs.WfFrame Proofs.MirrorProofs Proofs.WfTxn Proofs.WfCmd.
 From StgV Require Import Proofs.IdentTxn.
 From StgV Require Proofs.ReachBase Proofs.ReachEvolve Proofs.ReachStep Proofs.CommitProofs
-  Proofs.NoPanicExec.
+  Proofs.NoPanicExec Proofs.ChainExec.
 Import ListNotations.
 Local Open Scope nat_scope.
 
@@ -243,7 +243,7 @@ Proof.
   destruct (open_stack PAllow w) as [op|] eqn:Eo; [|exact Hw].
   pose proof (open_sat _ _ _ _ (Qren_mono w0) Eo ltac:(discriminate) Hw) as Hw1.
   apply open_op_mir in Eo.
-  assert (K : forall oldn, wsat (Qren w0) (fst (transact op (opts CAllow true false false true false)
+  assert (K : forall oldn, wsat (Qren w0) (fst (transact op (opts CAllow (w_apc (op_world op)) false false true false)
                                                  (rename_patch oldn newn) MOp))).
   { intros oldn. apply transact_sat; [apply Qren_mono|exact Eo|frame_auto|exact Hw1|].
     intros Hc T. destruct (rename_patch oldn newn (begin_txn op _)) as [t'| | |] eqn:Er; try exact I.
@@ -262,9 +262,10 @@ Qed.
 
 (* ---------------------------------------------------------------- uncommit *)
 
-Lemma run_uncommit_sat : forall w n names, Inv w -> wsat (Qunc w) (fst (run_uncommit w n names)).
+Lemma run_uncommit_sat : forall lower_s, LowerOK lower_s ->
+  forall w n names, Inv w -> wsat (Qunc w) (fst (run_uncommit lower_s w n names)).
 Proof.
-  intros w n names Hi. pose proof (Qid_init w Hi) as Hw0.
+  intros lower_s HL w n names Hi. pose proof (Qid_init w Hi) as Hw0.
   assert (Hw : wsat (Qunc w) w) by (intros m o E; left; now apply Hw0).
   unfold run_uncommit.
   destruct (fold_right _ _ names) as [pnames|] eqn:Ep; [|exact Hw]. apply parsed_names_valid in Ep.
@@ -274,6 +275,7 @@ Proof.
   pose proof (open_ok _ _ _ Hi Eo) as Hok. pose proof (open_op_mir _ _ _ Eo) as Hm.
   destruct (negb (head_top_ok op)); [exact Hw1|].
   pose proof Hok as [Hiw [Hs Hb]]. pose proof Hs as [Hn _].
+  cbv zeta.
   match goal with |- wsat _ (fst (match ?p with inl _ => _ | inr _ => _ end)) =>
     assert (Hplan : forall commits pns, p = inr (commits, pns) ->
               names_ok (pns ++ all_of (op_state op)));
@@ -281,13 +283,19 @@ Proof.
   { intros commits pns E. destruct n as [k|].
     - destruct (walk_down _ _ _) as [cs|] eqn:Ew; [|discriminate].
       destruct pnames as [|prefix [|? ?]]; try discriminate.
-      destruct (forallb _ _) eqn:Ef; [|discriminate].
-      destruct (check_patchnames _ _) eqn:Ec; [|discriminate]. injection E as <- <-.
-      apply check_patchnames_ok; [exact Hn| |exact Ec].
-      apply Forall_forall. intros x Hx. now apply (proj1 (forallb_forall _ _) Ef).
-    - destruct (check_patchnames _ _) eqn:Ec; [|discriminate]. cbn [negb] in E.
-      destruct (walk_down _ _ _) as [cs|] eqn:Ew; [|discriminate]. injection E as <- <-.
-      now apply check_patchnames_ok. }
+      + destruct (make_patchnames _ _ _ _) as [gen|] eqn:Eg; [|discriminate]. injection E as <- <-.
+        now apply (proj2 (gen_names_ok lower_s HL _ _ _ _ Eg)).
+      + destruct (forallb _ _) eqn:Ef; [|discriminate].
+        destruct (check_patchnames _ _) eqn:Ec; [|discriminate]. injection E as <- <-.
+        apply check_patchnames_ok; [exact Hn| |exact Ec].
+        apply Forall_forall. intros x Hx. now apply (proj1 (forallb_forall _ _) Ef).
+    - destruct pnames as [|pn0 pnames'].
+      + destruct (walk_down _ _ _) as [cs|] eqn:Ew; [|discriminate].
+        destruct (make_patchnames _ _ _ _) as [gen|] eqn:Eg; [|discriminate]. injection E as <- <-.
+        now apply (proj2 (gen_names_ok lower_s HL _ _ _ _ Eg)).
+      + destruct (check_patchnames _ _) eqn:Ec; [|discriminate]. cbn [negb] in E.
+        destruct (walk_down _ _ _) as [cs|] eqn:Ew; [|discriminate]. injection E as <- <-.
+        now apply check_patchnames_ok. }
   - clear Hplan. revert Epl.
     repeat match goal with
            | |- (if ?b then _ else _) = _ -> _ => destruct b
@@ -494,10 +502,10 @@ Proof.
   rewrite Epn. reflexivity.
 Qed.
 
-Definition refresh_opts : topts := opts CDisallow true false true true false.
+Definition refresh_opts (apc : bool) : topts := opts CDisallow apc false true true false.
 
-Lemma refresh_exec_ok : forall w t so pn th,
-  t_opts t = refresh_opts -> t_head t = None ->
+Lemma refresh_exec_ok : forall apc w t so pn th,
+  t_opts t = refresh_opts apc -> t_head t = None ->
   last_error (t_applied t) = Some pn -> t_patch t pn = Some th ->
   tree_eqb (t_cur_tree t) (tree_of (t_objs t) th) = true ->
   t_wt_unmerged t = false ->
@@ -506,7 +514,7 @@ Lemma refresh_exec_ok : forall w t so pn th,
   w_stack w = Some so -> state_of (t_objs t) so <> None -> first_parent (t_objs t) so <> None ->
   snd (exec_body w t None MOp) = X0.
 Proof.
-  intros w t so pn th Ho Hh Hl Hp Htr Hum Hc Hsh Hst Hs Hso Hfp.
+  intros apc w t so pn th Ho Hh Hl Hp Htr Hum Hc Hsh Hst Hs Hso Hfp.
   apply (exec_body_succeeds w t MOp th (t_wt t) false so); auto.
   - unfold t_head_oid, t_top. rewrite Hh. unfold last_error in Hl. now rewrite Hl.
   - unfold exec_co. rewrite Ho. cbn [refresh_opts opts o_set_head o_use_iw o_allow_bad_head andb negb].
@@ -541,7 +549,7 @@ Lemma refresh_second : forall w2 so s2 A tmpname tmpc pn pc w' x,
   pm_get (s_patches s2) tmpname = Some tmpc -> pm_get (s_patches s2) pn = Some pc ->
   match open_stack PAllow w2 with
   | None => err2 w2
-  | Some op2 => transact op2 refresh_opts (refresh_body pn tmpname) MOp
+  | Some op2 => transact op2 (refresh_opts (w_apc (op_world op2))) (refresh_body pn tmpname) MOp
   end = (w', x) ->
   x = X0 /\ store_extends (w_objs w2) (w_objs w')
   /\ ((tree_eqb (tree_of (w_objs w2) tmpc) (tree_of (w_objs w2) pc) = true
@@ -567,7 +575,7 @@ Proof.
   assert (Hne : pn <> tmpname) by (intros ->; contradiction).
   assert (Hne' : name_eqb tmpname pn = false) by (apply name_eqb_neq; congruence).
   unfold transact in E. cbn [op_initialized negb] in E.
-  set (op2 := mkOpened _ _ _ _) in E. set (t := begin_txn op2 refresh_opts) in E.
+  set (op2 := mkOpened _ _ _ _) in E. set (t := begin_txn op2 (refresh_opts _)) in E.
   assert (Hcur : cur_state (op_world op2) = Some s2).
   { unfold cur_state. cbn. now rewrite Hs. }
   assert (Hst_top : s_top s2 = tmpc) by (eapply s_top_last; eauto).
@@ -575,7 +583,7 @@ Proof.
   - rewrite (refresh_body_same pn tmpname t pc tmpc A Hpn Htn Etr Ha HA HU HH) in E.
     set (tf := set_updated _ _) in E. rewrite execute_eq in E.
     assert (Hx0 : snd (exec_body (op_world op2) tf None MOp) = X0).
-    { apply (refresh_exec_ok _ tf so pn pc); try reflexivity; try assumption.
+    { apply (refresh_exec_ok (w_apc (op_world op2)) _ tf so pn pc); try reflexivity; try assumption.
       - unfold tf. rewrite t_patch_upd. cbn [t_updated t begin_txn up_set up_remove up_get].
         rewrite Hne'. exact Hpn.
       - unfold tf. cbn. rewrite Hbr. exact Etr.
@@ -599,7 +607,7 @@ Proof.
     { unfold tf. rewrite t_updated_set_updated. cbn [t_updated t begin_txn].
       unfold up_set. cbn [up_remove]. now rewrite Hne'. }
     assert (Hx0 : snd (exec_body (op_world op2) tf None MOp) = X0).
-    { apply (refresh_exec_ok _ tf so pn (length (w_objs w2))); try reflexivity; try assumption.
+    { apply (refresh_exec_ok (w_apc (op_world op2)) _ tf so pn (length (w_objs w2))); try reflexivity; try assumption.
       - unfold t_patch. rewrite Hup. cbn [up_get]. now rewrite name_eqb_refl.
       - rewrite Hobjs. unfold tree_of at 1. rewrite get_put_new. cbn [c refreshed plain c_tree].
         change (t_cur_tree tf) with (tree_of (w_objs w2) (w_branch w2)). rewrite Hbr.
@@ -625,12 +633,12 @@ Proof.
       symmetry. apply (patch_commit_cur w2 s2). unfold cur_state. now rewrite Hs.
 Qed.
 
-Lemma refresh_first : forall op tmpname w2,
+Lemma refresh_first : forall op tmpname sj w2,
   op_ok op -> w_unmerged (op_world op) = false ->
   names_ok (tmpname :: all_of (op_state op)) ->
   transact (mkOpened (with_objs (op_world op)
                         (w_objs (op_world op)
-                         ++ [plain [w_branch (op_world op)] (w_wt (op_world op)) 0%N []]))
+                         ++ [plain [w_branch (op_world op)] (w_wt (op_world op)) 0%N sj]))
                      (op_state op) (op_base op) (op_initialized op))
            default_opts (new_applied tmpname (length (w_objs (op_world op)))) MOp = (w2, X0) ->
   exists so s2,
@@ -643,12 +651,12 @@ Lemma refresh_first : forall op tmpname w2,
                   if name_eqb tmpname n then Some (length (w_objs (op_world op)))
                   else pm_get (s_patches (op_state op)) n)
     /\ store_extends (w_objs (op_world op)
-                      ++ [plain [w_branch (op_world op)] (w_wt (op_world op)) 0%N []]) (w_objs w2)
+                      ++ [plain [w_branch (op_world op)] (w_wt (op_world op)) 0%N sj]) (w_objs w2)
     /\ op_initialized op = true.
 Proof.
-  intros op tmpname w2 Hok Hum Hnm Et.
+  intros op tmpname sj w2 Hok Hum Hnm Et.
   set (w1 := op_world op) in *. set (s := op_state op) in *.
-  set (ctmp := plain [w_branch w1] (w_wt w1) 0%N []) in *.
+  set (ctmp := plain [w_branch w1] (w_wt w1) 0%N sj) in *.
   set (op1 := mkOpened _ _ _ _) in Et.
   assert (Hi2 : Inv w2).
   { change w2 with (fst (w2, X0)). rewrite <- Et. pose proof Hok as [Hiw _].
@@ -693,7 +701,7 @@ Lemma run_refresh_eq : forall w,
         | Some pn =>
             if w_unmerged w1 then err2 w1
             else
-              let '(objs1, tmpc) := put (w_objs w1) (plain [w_branch w1] (w_wt w1) 0%N []) in
+              let '(objs1, tmpc) := put (w_objs w1) (plain [w_branch w1] (w_wt w1) 0%N (List.app s_refresh_of pn)) in
               let tmpname :=
                 match uniquify s_refresh_temp [] (all_of s) with UOk n => n | UFuel => s_refresh_temp end in
               let op1 := mkOpened (with_objs w1 objs1) s (op_base op) (op_initialized op) in
@@ -701,7 +709,7 @@ Lemma run_refresh_eq : forall w,
               | (w2, X0) =>
                   match open_stack PAllow w2 with
                   | None => err2 w2
-                  | Some op2 => transact op2 refresh_opts (refresh_body pn tmpname) MOp
+                  | Some op2 => transact op2 (refresh_opts (w_apc (op_world op2))) (refresh_body pn tmpname) MOp
                   end
               | other => other
               end
@@ -771,7 +779,7 @@ Proof.
   { apply uniquify_names_ok; [exact Hn|exact refresh_temp_valid]. }
   match type of E with match ?tr with _ => _ end = _ => destruct tr as [w2 x2] eqn:Et end.
   assert (Hop1 : op_mir (mkOpened (with_objs (op_world op)
-                   (w_objs (op_world op) ++ [plain [w_branch (op_world op)] (w_wt (op_world op)) 0%N []]))
+                   (w_objs (op_world op) ++ [plain [w_branch (op_world op)] (w_wt (op_world op)) 0%N (List.app s_refresh_of pn)]))
                    (op_state op) (op_base op) (op_initialized op))).
   { apply op_mir_with_objs; [exact Hm|apply store_extends_put]. }
   destruct (transact_patches _ _ _ _ _ _ Hop1 (frame_new_applied _ _ _) Et) as [Hx2 Hcase].
@@ -795,7 +803,7 @@ Proof.
     - contradiction.
     - exfalso. revert Hc. apply new_applied_no_halt. }
   destruct x2; try (apply Hkept; [discriminate|exact E]). clear Hkept Hcase.
-  destruct (refresh_first op tmpname w2 Hok Eu Hnm Et)
+  destruct (refresh_first op tmpname (List.app s_refresh_of pn) w2 Hok Eu Hnm Et)
     as (so & s2 & Hi2 & Hs2 & Es2 & Hfp2 & Hbr2 & Hum2 & Hsh2 & Ha2 & Hpm2 & Hxo2 & Hini).
   destruct (open_allow_init w op Eo Hini) as [Hcw [Hobjs Hwt]].
   assert (HpnA : In pn (all_of (op_state op))).
@@ -997,11 +1005,11 @@ Proof.
     pose proof (step_extends lower_s w (CRename old new)) as Hx. cbn [step] in Hx. now rewrite E in Hx.
   - (* uncommit *)
     destruct c; try discriminate. cbn [step] in E.
-    pose proof (run_uncommit_sat w number names Hi) as H. rewrite E in H. cbn [fst] in H.
+    pose proof (run_uncommit_sat lower_s HL w number names Hi) as H. rewrite E in H. cbn [fst] in H.
     destruct (H n o' En) as [Hq|Hnone]; [left; now apply Hid|]. right.
     split; [reflexivity|]. split; [exact Hnone|].
-    pose proof (run_uncommit_inv w number names Hi) as Hi'. rewrite E in Hi'. cbn [fst] in Hi'.
-    destruct (CommitProofs.uncommit_no_new_commit _ _ _ _ _ E) as [_ Hnn].
+    pose proof (run_uncommit_inv lower_s HL w number names Hi) as Hi'. rewrite E in Hi'. cbn [fst] in Hi'.
+    destruct (CommitProofs.uncommit_no_new_commit _ _ _ _ _ _ E) as [_ Hnn].
     destruct (inv_patch w' n o' Hi' En) as [Hpl _].
     destruct (Nat.lt_ge_cases o' (length (w_objs w))) as [Hlt|Hge]; [exact Hlt|].
     exfalso. exact (Hnn o' Hge Hpl).
@@ -1265,6 +1273,212 @@ Proof.
   pose proof (run_squash_sat w meta msg ranges nm Hi) as H. rewrite E in H. cbn [fst] in H.
   destruct (H n o' En) as [Hq|Hid]; [left|right; exact Hid].
   apply Qid_ident in Hq as [o [H1 H2]]. exists n, o. auto.
+Qed.
+
+(* ---------------------------------------------------------------- pick *)
+
+(* the store of an opened world only adds state commits: following first parents from a plain
+   commit of [a] never leaves [a] *)
+Lemma ancestor_ext_plain : forall a e k x y,
+  plain_closed a -> is_plain a x -> ancestor (a ++ e) x k = Some y -> is_plain a y.
+Proof.
+  intros a e. induction k as [|k IH]; intros x y Hc Hx H; cbn [ancestor] in H.
+  - now injection H as <-.
+  - destruct Hx as [c [Hg Hpl]].
+    assert (Hfp : first_parent (a ++ e) x = first_parent a x).
+    { unfold first_parent. now rewrite (parents_of_mono a e x c Hg). }
+    rewrite Hfp in H. destruct (first_parent a x) as [p|] eqn:Ep; [|discriminate].
+    apply (IH p y Hc); [|exact H]. eapply first_parent_plain; [exact Hc| |exact Ep]. exists c. auto.
+Qed.
+
+(* the source of a pick is a plain commit of the world before the command *)
+Lemma pick_source_old : forall w op src o,
+  Inv w -> open_stack PAuto w = Some op -> pick_source op src = Some o -> is_plain (w_objs w) o.
+Proof.
+  intros w op src o Hi Eo Hs. pose proof (open_ok _ _ _ Hi Eo) as Hok.
+  pose proof (pick_source_plain op src o Hok Hs) as Hpl.
+  destruct (ChainExec.open_stack_cases _ _ _ Eo)
+    as [(so & s & _ & _ & _ & Hw & _)|[(objs' & so & _ & Hsc & Hw & Hst & Hb & _)|(_ & Hw & _)]].
+  - rewrite Hw in Hpl. exact Hpl.
+  - apply Inv_iff in Hi as [[Hcl _] [Hbr _]].
+    apply state_commit_state in Hsc as [[e He] _].
+    destruct src as [n|k|k]; cbn [pick_source] in Hs.
+    + rewrite Hst in Hs. discriminate.
+    + rewrite Hw, Hb in Hs. cbn [ensure_patch_refs w_objs] in Hs. rewrite He in Hs.
+      eapply ancestor_ext_plain; [exact Hcl|exact Hbr|exact Hs].
+    + rewrite Hw in Hs. cbn [ensure_patch_refs w_objs w_branch] in Hs. rewrite He in Hs.
+      eapply ancestor_ext_plain; [exact Hcl|exact Hbr|exact Hs].
+  - rewrite Hw in Hpl. exact Hpl.
+Qed.
+
+Lemma pick_source_get : forall w op src o c,
+  Inv w -> open_stack PAuto w = Some op -> pick_source op src = Some o ->
+  get (w_objs (op_world op)) o = Some c -> get (w_objs w) o = Some c.
+Proof.
+  intros w op src o c Hi Eo Hs Hg. destruct (pick_source_old w op src o Hi Eo Hs) as [c0 [Hg0 _]].
+  destruct (open_patches _ _ _ Eo ltac:(discriminate)) as [[e He] _].
+  rewrite He in Hg. rewrite (get_app_l _ e _ _ Hg0) in Hg. congruence.
+Qed.
+
+(* every patch keeps the identity it had in [w] or carries the identity of the picked commit *)
+Lemma pick_txn_sat : forall w op c par pn na,
+  Inv w -> open_stack PAuto w = Some op ->
+  wsat (Qsq w (c_meta c) (c_subj c))
+       (fst (transact (pick_op op c par) (pick_opts (w_apc (op_world op))) (pick_body pn (length (w_objs (op_world op))) na) MOp)).
+Proof.
+  intros w op c par pn na Hi Eo.
+  pose proof (Qsq_mono w (c_meta c) (c_subj c)) as Hmono.
+  assert (Hw : wsat (Qsq w (c_meta c) (c_subj c)) w) by (intros n o E; left; now apply (Qid_init w Hi)).
+  pose proof (open_sat _ _ _ _ Hmono Eo ltac:(discriminate) Hw) as Hw1.
+  pose proof (open_op_mir _ _ _ Eo) as Hm.
+  unfold pick_op, pick_commit. apply transact_sat.
+  - exact Hmono.
+  - apply op_mir_with_objs; [exact Hm|apply store_extends_put].
+  - apply frame_pick_body.
+  - cbn [op_world]. now apply wsat_put_plain.
+  - cbn [op_world op_state]. intros _ T. unfold pick_body. apply rsat_tbind.
+    + apply new_unapplied_sat; [exact T|]. right.
+      cbn [begin_txn t_objs op_world with_objs w_objs]. unfold ident_of. now rewrite get_put_new.
+    + intros t2 T2. destruct na; [exact T2|]. apply push_patches_sat; [apply Qsq_ok|exact T2].
+Qed.
+
+Lemma pick_identity :
+  forall lower_s, LowerOK lower_s ->
+  forall w src nm na w' x n o',
+    Inv w -> step lower_s w (CPick src nm na) = (w', x) -> patch_commit w' n = Some o' ->
+    (exists a o, patch_commit w a = Some o /\ ident_of (w_objs w') o' = ident_of (w_objs w) o)
+    \/ (exists op o, open_stack PAuto w = Some op /\ pick_source op src = Some o
+                     /\ ident_of (w_objs w') o' = ident_of (w_objs w) o).
+Proof.
+  intros lower_s HL w src nm na w' x n o' Hi E En. cbn [step] in E.
+  assert (Hkeep : wsat (Qid w) w' ->
+            exists a o, patch_commit w a = Some o /\ ident_of (w_objs w') o' = ident_of (w_objs w) o).
+  { intros Hq. apply (Hq n o') in En. apply Qid_ident in En as [o [H1 H2]]. exists n, o. auto. }
+  pose proof (Qid_init w Hi) as Hw.
+  revert E. destruct (run_pick_case lower_s w src nm na) as
+    [_|_|op Eo|op given o Eo _ _ _ _|op given o pn0 Eo _ _ _ _ _|op given o pn0 pn c par Eo _ _ _ Es _ _ Eg _];
+    intros E.
+  - injection E as <- _. left. now apply Hkeep.
+  - injection E as <- _. left. now apply Hkeep.
+  - injection E as <- _. left. apply Hkeep.
+    exact (open_sat _ _ _ _ (Qid_mono w) Eo ltac:(discriminate) Hw).
+  - injection E as <- _. left. apply Hkeep.
+    exact (open_sat _ _ _ _ (Qid_mono w) Eo ltac:(discriminate) Hw).
+  - injection E as <- _. left. apply Hkeep.
+    exact (open_sat _ _ _ _ (Qid_mono w) Eo ltac:(discriminate) Hw).
+  - pose proof (pick_txn_sat w op c par pn na Hi Eo) as H. rewrite E in H. cbn [fst] in H.
+    destruct (H n o' En) as [Hq|Hid].
+    + left. apply Qid_ident in Hq as [o0 [H1 H2]]. exists n, o0. auto.
+    + right. exists op, o. split; [exact Eo|]. split; [exact Es|].
+      rewrite Hid. unfold ident_of. now rewrite (pick_source_get w op src o c Hi Eo Es Eg).
+Qed.
+
+(* a transaction that checks its head (set_head, use_iw, no allow_bad_head) only goes through
+   when nothing is applied or the branch is at the top of the stack *)
+Lemma exec_co_inl_head : forall t th w1 st1 r,
+  o_set_head (t_opts t) = true -> o_use_iw (t_opts t) = true -> o_allow_bad_head (t_opts t) = false ->
+  exec_co t th w1 st1 = inl r -> s_applied st1 = [] \/ s_top st1 = w_branch w1.
+Proof.
+  intros t th w1 st1 r H1 H2 H3 E. unfold exec_co in E. rewrite H1, H2, H3 in E. cbn [andb negb] in E.
+  destruct (s_applied st1) as [|a l]; [now left|]. right. cbn [negb andb] in E.
+  destruct (Nat.eqb (s_top st1) (w_branch w1)) eqn:En; [now apply Nat.eqb_eq in En|].
+  cbn [negb] in E. discriminate.
+Qed.
+
+Lemma open_base_no_applied : forall p w op,
+  open_stack p w = Some op -> s_applied (op_state op) = [] -> op_base op = w_branch w.
+Proof.
+  intros p w op Eo Ha.
+  destruct (ChainExec.open_stack_cases _ _ _ Eo)
+    as [(so & s & _ & _ & Hb & _ & Hst & _)|[(objs' & so & _ & _ & _ & _ & Hb & _)|(_ & _ & _ & Hb & _)]];
+    [|exact Hb|exact Hb].
+  rewrite Hst in Ha. unfold stack_base in Hb. rewrite Ha in Hb. now injection Hb as <-.
+Qed.
+
+Lemma pick_noapply_copies :
+  forall lower_s, LowerOK lower_s ->
+  forall w src nm w' op o s s',
+    Inv w -> open_stack PAuto w = Some op -> pick_source op src = Some o ->
+    step lower_s w (CPick src nm true) = (w', X0) ->
+    cur_state (op_world op) = Some s -> cur_state w' = Some s' ->
+    exists n o',
+      s_unapplied s' = n :: s_unapplied s /\ s_applied s' = s_applied s /\ s_hidden s' = s_hidden s
+      /\ pm_get (s_patches s) n = None /\ pm_get (s_patches s') n = Some o'
+      /\ (forall m, m <> n -> pm_get (s_patches s') m = pm_get (s_patches s) m)
+      /\ tree_of (w_objs w') o' = tree_of (w_objs w) o
+      /\ first_parent (w_objs w') o' = first_parent (w_objs w) o
+      /\ ident_of (w_objs w') o' = ident_of (w_objs w) o
+      /\ w_branch w' = w_branch w.
+Proof.
+  intros lower_s HL w src nm w' op o s s' Hi Eo Es E Hcs Hcs'. cbn [step] in E.
+  revert E. destruct (run_pick_case lower_s w src nm true) as
+    [_|_|op1 Eo1|op1 given o1 Eo1 _ _ _ _|op1 given o1 pn0 Eo1 _ _ _ _ _
+     |op1 given o1 pn0 pn c par Eo1 _ _ _ Es1 _ Eu Eget Epar];
+    intros E; try discriminate E.
+  rewrite Eo in Eo1. injection Eo1 as <-. rewrite Es in Es1. injection Es1 as <-.
+  pose proof (open_ok _ _ _ Hi Eo) as Hok.
+  pose proof (pick_source_get w op src o c Hi Eo Es Eget) as Hgw.
+  destruct (ConflictProofs.open_stack_frame _ _ _ Eo) as [Hbw _].
+  set (o' := length (w_objs (op_world op))) in *.
+  apply transact_X0 in E as [t1 [Ef [Hini Eb]]].
+  unfold pick_body, new_unapplied in Ef. cbn [Nat.ltb Nat.leb insert_at tbind] in Ef. injection Ef as Ef.
+  cbn [pick_op op_initialized] in Hini.
+  pose proof (open_cur _ _ _ Eo Hini) as Hcur. rewrite Hcs in Hcur. injection Hcur as ->.
+  apply exec_ok_shape in Eb as (th & w1 & st1 & wt' & um' & prev & objs' & so & _ & Hth & El & Eco & Hprev & Ec & Ew & _).
+  apply exec_logged_fields in El as (L1 & L2 & L3 & L4 & L5 & L6 & L7 & L8).
+  pose proof (state_commit_state _ _ _ _ _ Ec) as [Hx2 Es2].
+  assert (Hs' : s' = exec_state t1 th prev st1).
+  { rewrite Ew in Hcs'. unfold cur_state in Hcs'. cbn [w_stack w_objs] in Hcs'. congruence. }
+  assert (Hfresh : ~ In pn (all_of (op_state op))) by exact (uniquify_notin _ _ _ Eu).
+  assert (Hget' : get (w_objs w') o' = Some (pick_commit c par)).
+  { rewrite Ew. cbn [w_objs]. destruct Hx2 as [e2 ->]. apply get_app_l.
+    destruct L8 as [e1 ->]. apply get_app_l. rewrite <- Ef. cbn. apply get_put_new. }
+  assert (Hpat : forall m, pm_get (s_patches s') m =
+                           if name_eqb pn m then Some o' else pm_get (s_patches (op_state op)) m).
+  { intros m. rewrite Hs'. unfold exec_state. cbn [s_patches]. rewrite pm_get_apply, L7, <- Ef.
+    cbn [t_updated set_updated t_stack set_lists begin_txn pick_op op_state]. rewrite up_get_set.
+    now destruct (name_eqb pn m). }
+  exists pn, o'.
+  split; [rewrite Hs', <- Ef; reflexivity|]. split; [rewrite Hs', <- Ef; reflexivity|].
+  split; [rewrite Hs', <- Ef; reflexivity|].
+  split.
+  { destruct Hok as [_ [[_ [_ [Hall _]]] _]].
+    destruct (pm_get (s_patches (op_state op)) pn) eqn:Eg; [|reflexivity].
+    exfalso. apply Hfresh. apply Hall. congruence. }
+  split; [now rewrite Hpat, name_eqb_refl|].
+  split.
+  { intros m Hm. rewrite Hpat. replace (name_eqb pn m) with false; [reflexivity|].
+    symmetry. apply name_eqb_neq. congruence. }
+  split; [unfold tree_of; now rewrite Hget', Hgw|].
+  split.
+  { unfold first_parent, parents_of in *. rewrite Hget', Hgw. rewrite Eget in Epar. now rewrite Epar. }
+  split; [unfold ident_of; now rewrite Hget', Hgw|].
+  (* the branch *)
+  rewrite Ew. cbn [w_branch]. rewrite <- Ef. cbn [t_opts set_updated set_lists begin_txn pick_opts opts o_set_head].
+  assert (Hopts : t_opts t1 = pick_opts (w_apc (op_world op))) by (now rewrite <- Ef).
+  assert (Happ : t_applied t1 = s_applied (op_state op)) by (now rewrite <- Ef).
+  assert (Hb1 : w_branch w1 = w_branch w) by (rewrite L1; exact Hbw).
+  unfold t_head_oid in Hth. replace (t_head t1) with (@None oid) in Hth by (now rewrite <- Ef).
+  unfold t_top in Hth. rewrite Happ in Hth.
+  destruct (hd_error (rev (s_applied (op_state op)))) as [n|] eqn:Ehd.
+  - assert (Hn : In n (s_applied (op_state op))) by (apply in_rev; now apply hd_error_In in Ehd).
+    assert (Hne : name_eqb pn n = false).
+    { apply name_eqb_neq. intros ->. apply Hfresh. unfold all_of. apply in_or_app. now left. }
+    assert (Htp : t_patch t1 n = pm_get (s_patches (op_state op)) n).
+    { rewrite <- Ef. rewrite t_patch_upd. cbn [t_updated set_lists begin_txn]. rewrite up_get_set, Hne.
+      reflexivity. }
+    rewrite Htp in Hth.
+    destruct (exec_co_inl_head t1 th w1 st1 _ ltac:(now rewrite Hopts) ltac:(now rewrite Hopts)
+                ltac:(now rewrite Hopts) Eco) as [Hnil|Htop].
+    + exfalso. rewrite L4 in Hnil. replace (t_stack t1) with (op_state op) in Hnil by (now rewrite <- Ef).
+      rewrite Hnil in Hn. destruct Hn.
+    + rewrite <- Hb1, <- Htop. unfold s_top, last_error. rewrite L4, L7.
+      replace (t_stack t1) with (op_state op) by (now rewrite <- Ef). now rewrite Ehd, Hth.
+  - injection Hth as <-. unfold t_base_oid. rewrite <- Ef. cbn.
+    apply (open_base_no_applied _ _ _ Eo).
+    destruct (s_applied (op_state op)) as [|a l] eqn:Ea; [reflexivity|].
+    exfalso. assert (Hr : rev (a :: l) = []) by (destruct (rev (a :: l)); [reflexivity|discriminate]).
+    apply (f_equal (@length name)) in Hr. rewrite rev_length in Hr. discriminate.
 Qed.
 
 (* Model/Cmd.v leaves N_scope open; the statements of Properties/C08.v compare object ids
